@@ -8,6 +8,7 @@ agree, and get_corresponding_lineno scans it from the end for the last entry at 
 the failing code line; the line bookkeeping of write/newline (code_lineno advances by the
 pending newlines, an entry is written when the node's line changes); Parser.fail and the
 token stream default to the current token's line; the lexer's line accounting (C39).
+Also: emitted stub functions carry @internalcode; compile_templates writes the generated text verbatim.  
 Not decided: traceback rewriting at run time (frame surgery in debug.py).
 """
 
